@@ -21,11 +21,14 @@ def val_of(limbs):
     return sum(CLS[c] << (64 * i) for i, c in enumerate(limbs))
 
 
-def build_driver(env):
-    out = os.path.join(env.root, "bigint_driver")
+def build_driver(env, limb32=False):
+    """limb32: the configuration bigint.h selects where the compiler has no 128-bit integer (32-bit limbs, 64-bit
+    accumulator) -- the same source, the other of its two limb widths."""
+    out = os.path.join(env.root, "bigint_driver" + ("32" if limb32 else ""))
     rt = os.path.join(REPO, "runtime", "core")
-    cmd = ["clang", "-std=gnu99", "-g", "-O1", "-w", "-fsanitize=address,undefined", "-fno-sanitize-recover=all",
-           "-I", rt, "-o", out, os.path.join(VERIF, "harness", "c", "bigint_driver.c"),
+    cmd = ["clang", "-std=gnu99", "-g", "-O1", "-w", "-fsanitize=address,undefined", "-fno-sanitize-recover=all"] + \
+          (["-U__SIZEOF_INT128__"] if limb32 else []) + \
+          ["-I", rt, "-o", out, os.path.join(VERIF, "harness", "c", "bigint_driver.c"),
            os.path.join(rt, "bigint.c"), "-lm"]
     r = subprocess.run(cmd, capture_output=True, text=True)
     if r.returncode != 0:
@@ -41,10 +44,22 @@ def run(tier, seed, replay=None):
     chk = core.Check("C16", tier, seed, "model_checking")
     env = Env()
     drv = build_driver(env)
+    drv32 = build_driver(env, limb32=True)
     rnd = random.Random(seed)
 
     # BigNum self-test (the oracle's own arithmetic against native TLC integers)
     tlc.require_ok(tlc.run(env.tmpdir("tlc"), "BigNumTest", "BigNumTest.cfg", ["lib"], workers=1), "BigNumTest")
+
+    # design level: the limb algorithms of bigint.c at limb width 2, ALL operand pairs for 2 and 3 limbs (4 in the
+    # thorough tier): carries, borrows, truncated products, shift-subtract division, the signed wrappers
+    limb_states = 0
+    for cfg in (["MC_Limb2.cfg", "MC_Limb3.cfg"] + (["MC_Limb4.cfg"] if tier == "thorough" else [])):
+        rl = tlc.run(env.tmpdir("tlc"), "LimbArith", cfg, ["bigint"], workers=8, timeout=3000)
+        if rl["violated"] or not rl["finished"]:
+            raise core.Undecided("LimbArith (%s): an algorithm transcribed from bigint.c is wrong at the design level:\n%s"
+                                 % (cfg, tlc.tail(rl["out"], 25)))
+        limb_states += rl["distinct"]
+    chk.cov["limb_algorithm_operand_pairs_checked"] = limb_states
 
     # operand patterns from TLC
     r2 = tlc.require_ok(tlc.run(env.tmpdir("tlc"), "BigPatterns", "Gen_Pat2.cfg", ["bigint"], workers=1), "Pat2")
@@ -97,23 +112,27 @@ def run(tier, seed, replay=None):
     # run the real code
     chunks = [lines[i::16] for i in range(16)]
     chunks = [c for c in chunks if c]
+    # both limb widths of the source: 64-bit limbs (this platform) and 32-bit limbs; the quick tier sends every
+    # second chunk through the 32-bit build as well
+    jobs = [(drv, "", c) for c in chunks] + [(drv32, "|limb32", c) for k, c in enumerate(chunks) if tier == "thorough" or replay or k % 2 == 0]
 
-    def exe(chunk):
+    def exe(job):
+        d, tag, chunk = job
         e = dict(os.environ)
         e["ASAN_OPTIONS"] = "detect_leaks=0:exitcode=77"
         e["UBSAN_OPTIONS"] = "halt_on_error=1:exitcode=78"
-        r = subprocess.run([drv], input="\n".join(chunk) + "\n", capture_output=True, text=True, env=e, timeout=900)
-        return chunk, r.returncode, [ln for ln in r.stdout.split("\n") if ln.strip()], r.stderr
-    outs = core.pmap(exe, chunks)
-    for chunk, rc, recs, se in outs:
+        r = subprocess.run([d], input="\n".join(chunk) + "\n", capture_output=True, text=True, env=e, timeout=900)
+        return chunk, r.returncode, [ln for ln in r.stdout.split("\n") if ln.strip()], r.stderr, tag
+    outs = core.pmap(exe, jobs)
+    for chunk, rc, recs, se, tag in outs:
         if rc != 0:
             bad = chunk[min(len(recs), len(chunk) - 1)]
-            chk.fail("C16|crash|" + " ".join(bad.split()[:2]), "the runtime crashed or a sanitizer fired on: %s :: %s"
+            chk.fail("C16|crash|" + " ".join(bad.split()[:2]) + tag, "the runtime crashed or a sanitizer fired on: %s :: %s"
                      % (bad, se.strip().split("\n")[:4]), {"calls": [bad]})
 
     # code -> spec
     def validate(item):
-        chunk, rc, recs, se = item
+        chunk, rc, recs, se = item[:4]
         wd = env.tmpdir("bi")
         with open(os.path.join(wd, "trace.ndjson"), "w") as f:
             f.write("\n".join(regroup(x) for x in recs) + "\n")
@@ -126,7 +145,7 @@ def run(tier, seed, replay=None):
     vres = core.pmap(validate, outs, workers=16)
     n_ok = 0
     keys = set()
-    for (chunk, rc, recs, se), (ok, acc, _) in zip(outs, vres):
+    for (chunk, rc, recs, se, tag), (ok, acc, _) in zip(outs, vres):
         pos = 0
         remaining = recs
         # walk over all rejected records of the chunk (re-validate the tail after each rejection)
@@ -135,7 +154,7 @@ def run(tier, seed, replay=None):
         while not ok and guard < 4:
             guard += 1
             bad = json.loads(remaining[acc])
-            k = "C16|%s|%s" % (bad["ty"], bad["op"])
+            k = "C16|%s|%s%s" % (bad["ty"], bad["op"], tag)
             keys.add(k)
             chk.fail(k, "%s %s: result is not the exact value mod 2^N: %s" % (bad["ty"], bad["op"], brief(bad)),
                      {"calls": [chunk[pos + acc]] if pos + acc < len(chunk) else [], "record": bad})
